@@ -58,7 +58,4 @@ impl Sm {
     pub fn pick<'a, T>(&mut self, xs: &'a [T]) -> &'a T {
         &xs[self.below(xs.len() as u64) as usize]
     }
-    pub fn fork(&mut self) -> Sm {
-        Sm(self.next())
-    }
 }
